@@ -25,7 +25,11 @@ def env : LogQL.Env where
   parseFloat := Num.parseFloat
   parseDuration := Num.parseDuration
   parseBytes := Num.parseBytes
-  parseIP := Num.parseIPv4
+  -- a well-formed IPv6 address is a valid address that no IPv4 pattern matches: it is represented by a
+  -- value outside the IPv4 range (2^40), which `IPPat.matches` rejects for every pattern
+  parseIP := fun s => match Num.parseIPv4 s with
+    | some x => some x
+    | none => if s.all (fun c => LogQL.isHexDigit c || c == 58) && LogQL.validIPv6 s then some 1099511627776 else none
   jsonObject := Json.readObject
   jsonExpr := JsonExpr.extract
   logfmt := Logfmt.read
